@@ -388,7 +388,7 @@ def find_cycle(g, targets):
 def gen_cycle_history(rnd, sid):
     feat = dict(deps=0.0, rsp=0.0, validations=0.3, generator=0.0, pools=0.2)
     g = engine.gen_graph(rnd, rnd.randrange(2, 8), feat)
-    kind = rnd.choice(['none', 'manifest', 'manifest', 'dyndep-source', 'dyndep-built', 'validation-back'])
+    kind = rnd.choice(['none', 'manifest', 'manifest', 'dyndep-source', 'dyndep-built', 'validation-back', 'self', 'self'])
     real = [e for e in g.edges]
     prod = g.producer()
     def pick_pair():
@@ -396,7 +396,21 @@ def gen_cycle_history(rnd, sid):
         cands = [(a, b) for a in real for b in real if a is not b and b.idx in g.dependents_of(a)]
         return rnd.choice(cands) if cands else None
     pr = pick_pair()
-    if kind == 'validation-back' or (kind != 'none' and pr is None):
+    if kind == 'self':
+        # a statement that lists its own output as an input.  Tolerated (that input is dropped with a warning) only in the legacy
+        # form: phony, exactly ONE output, no implicit output, no implicit input; a cycle of length one in every other form
+        ph = [e for e in real if e.phony]
+        a = rnd.choice(ph) if ph and rnd.random() < 0.75 else rnd.choice(real)
+        r = rnd.random()
+        if a.phony and r < 0.3: a.outs.append('sio%d' % a.idx); a.n_imp_out = 1            # one explicit + one implicit output
+        elif a.phony and r < 0.45: a.outs.append('so%db' % a.idx)                           # two explicit outputs
+        elif a.phony and r < 0.6 and sorted(g.sources): a.imp.append(rnd.choice(sorted(g.sources)))   # an implicit input
+        exempt = a.phony and len(a.outs) == 1 and a.n_imp_out == 0 and not a.imp
+        if exempt: a.selfref = rnd.choice(['exp', 'oo']); kind = 'self-legacy-form'
+        else:
+            where = rnd.choice(['exp', 'oo']) if a.phony else rnd.choice(['exp', 'imp', 'oo'])
+            getattr(a, where).append(rnd.choice(a.outs) if rnd.random() < 0.3 else a.out0); kind = 'self-cycle'
+    elif kind == 'validation-back' or (kind != 'none' and pr is None):
         # a validation target that depends on the statement requesting it is NOT a cycle
         if pr: a, b = pr; a.vals.append(rnd.choice(b.outs))
         kind = 'validation-back'
